@@ -155,7 +155,7 @@ def main(tier, seed):
 
     # ---- run Polar
     jobs = []
-    chunk = 25
+    chunk = 10
     for i in range(0, len(systems), chunk):
         part = systems[i:i + chunk]
         jobs.append({"kind": "linrec", "id": f"lr{i}", "N": N, "modes": MODES_EXACT, "timeout": 900,
@@ -194,9 +194,13 @@ def main(tier, seed):
                 for ci, comp in enumerate(mo["comps"]):
                     for n, val in enumerate(comp["values"]):
                         base = {"i": ci + 1}
-                        if "q" in val:
+                        if "q" in val and exact_flag:
                             stats_n["values_exact"] += 1
                             steps[n].append(dict(base, val=F(val["q"]), exact=exact_flag))
+                        elif "q" in val:
+                            # rounded result that happens to be a rational number: judged with the tolerance
+                            stats_n["values_float"] += 1
+                            steps[n].append(dict(base, approx=F(val["q"]), eps=None, exact=exact_flag))
                         elif "approx" in val or "float" in val:
                             x = F(val.get("approx", val.get("float")))
                             if exact_flag and "approx" in val:
